@@ -153,7 +153,9 @@ func (m *Merger) cat() (rec *sam.Record, err error) {
 	}
 	if rec == nil {
 		if err != nil {
-			// A failing input is reported, not skipped.
+			// A failing input is reported, not skipped, and the
+			// merge does not go on to a clean end after it.
+			m.err = err
 			return nil, err
 		}
 		return m.Read()
